@@ -137,7 +137,9 @@ def build(tier, seed):
     for o in o3:
         o.id = 'C04.strings.' + o.id.split('.', 1)[1]
     u8, o8, m8 = C08.build(tier, seed)
-    o8 = [o for o in o8 if o.kind != 'K5' and not getattr(o, 'stand_in', None)]
+    o8 = [o for o in o8 if o.kind != 'K5' and '.K2.descent.' not in o.id]
+    for o in o8:
+        o.stand_in = None      # no bounded stand-in here: a loop VC that no longer fits is left undecided in this check
     for o in o8:
         o.id = 'C04.tables.' + o.id.split('.', 1)[1]
     meta['assumptions'] += [a for a in m3['assumptions'] if a not in meta['assumptions']]
